@@ -567,10 +567,20 @@ class Encoding:
         # of its parts); identical (kind, ident) violations are reported once
         viol_terms = []
         items = []
+        # the final function judges complete executions only: every thread ran to its end (a thread that was
+        # cut by a bound or died is reported through its own obligation)
+        complete = []
+        for t, lv in self.leaves.items():
+            if t == 0:
+                continue
+            done = [self.g(tuple(leaf.pc)) for leaf in lv if leaf.status == 'done']
+            complete.append(z3.Or(*done) if done else z3.BoolVal(False))
         for (t, leaf, ob) in obligations:
             c = self.g(ob.guard)
             if ob.cond is not None:
                 c = z3.And(c, z3.Not(ob.cond))
+            if t == 0 and ob.kind != 'bound':
+                c = z3.And(c, *complete)
             viol_terms.append(c)
             items.append(((t, leaf, ob), None))
         for f, e in uaf:
